@@ -84,7 +84,16 @@ class Bus:
     def note(self, *a):
         self.log.append(list(a))
 
-    def val(self, c):
+    # (no string with an embedded NUL: the vendored JSON library documents that it cannot hold one - "\u0000" is cut off there - so
+    # such values stay out of the behavioural oracles and are only used where "no crash" is the question)
+    SPECIAL_VALUES = [None, False, True, 0, -1, 0.5, "", " ", "null", "true", {}, [], [None], {"": None}, {"value": None}, [[]], "\u00fc", "a\"b\\c/d",
+                      2147483648, 4294967296, 1e15, "x" * 200]
+
+    def val(self, c, bare_ok=False):
+        if bare_ok and (self.S.seed + self.S.valc) % 5 == 0:
+            # a bare special value (not wrapped, not unique): whoever tests a value for truth, emptiness or type instead of copying it shows
+            self.S.valc += 1
+            return self.SPECIAL_VALUES[(self.S.seed // 5 + self.S.valc) % len(self.SPECIAL_VALUES)]
         v = self.S.next_val(c)
         if self.o.get("rich") and self.rng.random() < 0.6:
             from .hostile import rnd_json
@@ -197,7 +206,7 @@ class Bus:
         path = rng.choice(self.paths)
         pr = {"path": path}
         if rng.random() < 0.75:
-            pr["value"] = self.val(c)
+            pr["value"] = self.val(c, bare_ok=True)
             if rng.random() < 0.15:
                 pr["fetchOnly"] = True
         if self.o["timeouts"] and rng.random() < 0.3:
@@ -236,7 +245,7 @@ class Bus:
             path = rng.choice(sorted(S.elements))
         else:
             path = rng.choice(self.paths)
-        pr = {"path": path, "value": self.val(c)}
+        pr = {"path": path, "value": self.val(c, bare_ok=True)}
         e = S.elements.get(path)
         if e is not None and e.is_state and rng.random() < 0.25:
             pr["value"] = self.near_same(e.value)
@@ -346,6 +355,11 @@ class Bus:
         if r < self.o["hostile_owner"]:
             mode = "forged"
         self.note("reply", p.owner.name, p.fwd_id, kind, mode)
+        if mode == "right" and 0.80 < r <= 0.95 and (S.seed + S.valc) % 2 == 0:
+            # the owner's result / error is a bare special value (null, false, 0, "", {}, [], ...): handed through as it is
+            S.valc += 1
+            S.reply(p.owner, p, kind, payload=self.SPECIAL_VALUES[(S.seed + S.valc) % len(self.SPECIAL_VALUES)], idmode=mode, chunks=pick_chunks(rng))
+            return
         if mode == "right" and r > 0.95:
             # a payload that is longer when the daemon prints it than it was on the wire (raw control characters inside a string,
             # which the JSON library accepts and prints escaped), up to what fits into one message
